@@ -4,6 +4,7 @@ import (
 	"encoding/binary"
 	"fmt"
 	"math"
+	"sort"
 	"strings"
 	"time"
 )
@@ -775,6 +776,8 @@ func (vm *VM) execGetIter() error {
 		for k := range objVal.Val {
 			iter.keys = append(iter.keys, k)
 		}
+		// Key order, not Go's random map order (same order as the interpreter)
+		sort.Strings(iter.keys)
 	}
 
 	// Store iterator and push ID
